@@ -275,6 +275,35 @@ def run(chk):
                         root.req("DELETE", "/bk1/pub/mpcopy", query={"uploadId": cuid})
                         r0 = alice.req("POST", "/bk1/pub/mpcopy", query={"uploads": ""})
                         cuid = r0.xml().findtext("UploadId") if r0.status == 200 and r0.xml() is not None else ""
+        # the same with Deny statements that name one key exactly (no wildcard): the resource the policy is asked about is the key, not
+        # the key followed by the ?versionId=... of the copy source
+        root.req("PUT", "/bk1", query={"versioning": ""}, body=VERSIONING.replace(b"Suspended", b"Enabled"))
+        rx = root.req("PUT", "/bk1/exact", body=b"EXACT-SECRET"); xvid = rx.headers.get("x-amz-version-id", "")
+        chk.tie("the versioned bucket bk1 hands out a version id for bk1/exact", rx.status == 200 and xvid not in ("", "null"), str(rx))
+        set_policy(policy([allow("alice", "s3:PutObject", "bk1/*"), allow("alice", "s3:GetObject", "bk1/*"), allow("alice", "s3:GetObjectVersion", "bk1/*"),
+                           deny("alice", "s3:GetObject", "bk1/exact"), deny("alice", "s3:GetObjectVersion", "bk1/exact")]))
+        for spelling in ("bk1/exact", "bk1/exact?versionId=" + xvid, "/bk1/exact?versionId=" + xvid, "bk1/%65xact?versionId=" + xvid):
+            for kind in ("CopyObject", "UploadPartCopy"):
+                if kind == "CopyObject":
+                    r = alice.req("PUT", "/bk1/pub/stolen3", headers={"x-amz-copy-source": spelling})
+                    leaked = root.req("GET", "/bk1/pub/stolen3").status == 200
+                    root.req("DELETE", "/bk1/pub/stolen3")
+                else:
+                    root.req("DELETE", "/bk1/pub/mpcopy", query={"uploadId": cuid})
+                    r0 = alice.req("POST", "/bk1/pub/mpcopy", query={"uploads": ""})
+                    cuid = r0.xml().findtext("UploadId") if r0.status == 200 and r0.xml() is not None else ""
+                    r = alice.req("PUT", "/bk1/pub/mpcopy", query={"partNumber": "1", "uploadId": cuid}, headers={"x-amz-copy-source": spelling})
+                    lp = root.req("GET", "/bk1/pub/mpcopy", query={"uploadId": cuid})
+                    leaked = lp.status == 200 and b"<PartNumber>" in (lp.body or b"")
+                row = {"endpoint": kind, "config": "policy: alice may write and read bk1/*, Deny s3:GetObject and s3:GetObjectVersion on exactly bk1/exact; source " + spelling,
+                       "status": r.status, "code": r.code, "data_copied": leaked}
+                rows.append(row); chk.case((kind, "exact-key-denied-source", spelling.replace(xvid, "<id>")), True); chk.traces += 1
+                if leaked or (200 <= r.status < 300):
+                    chk.fail("c03:copy-from-denied-key:%s" % kind, "alice %s from %s (a key the policy denies her by name) answered %d and %s"
+                             % (kind, spelling, r.status, "copied the data" if leaked else "reported success"), row)
+        set_policy(policy([allow("alice", "s3:PutObject", "bk1/*"), allow("alice", "s3:GetObject", "bk1/*"),
+                           allow("alice", "s3:GetObjectVersion", "bk1/*"), deny("alice", "s3:GetObject", "bk1/priv/*"),
+                           deny("alice", "s3:GetObjectVersion", "bk1/priv/*")]))
         for kind, src in (("CopyObject", "bk1/pub/o1"), ("UploadPartCopy", "bk1/pub%2Fo1")):
             if kind == "CopyObject":
                 r = alice.req("PUT", "/bk1/pub/copied2", headers={"x-amz-copy-source": src})
